@@ -391,4 +391,57 @@ pub mod blake3 {
             Hash(bytes)
         }
     }
+
+    // `Hash == Hash` (src/lib.rs `impl PartialEq for Hash`: constant_time_eq_32 of the bytes): equal iff the 32 bytes
+    // are equal -- the contract the hashconv unit VERIFIES on the real crate (C14). The overlay resolves
+    // `expected_hash == found_hash` to this method (@subst: Verus has no PartialEq dispatch for model types).
+    impl Hash {
+        #[verifier::external_body]
+        pub fn vf_eq(&self, other: &Hash) -> (r: bool)
+            ensures
+                r == (self.0@ == other.0@),
+        {
+            unimplemented!()
+        }
+    }
 }
+
+// ---- R21b: standard error is not modelled -------------------------------------------------------------
+// `eprintln!("..", a, b)` -> `vf_stderr_note(&(a)); vf_stderr_note(&(b))`: the arguments are evaluated, the text is
+// dropped. ASSUMED: writing to stderr does not touch stdout, the file system or the program state.
+#[verifier::external_body]
+pub fn vf_stderr_note<T: ?Sized>(x: &T) {
+    unimplemented!()
+}
+
+// Display of an anyhow::Error (`{}`: the outermost message): an uninterpreted text
+pub uninterp spec fn sp_err_text(e: VfErr) -> Seq<char>;
+
+impl VfDisplay for VfErr {
+    open spec fn vf_disp(&self) -> Seq<char> {
+        sp_err_text(*self)
+    }
+}
+
+// `"lit".to_string() + &s` (String: Add<&str>): concatenation
+#[verifier::external_body]
+pub fn vf_string_concat(a: &str, b: &str) -> (r: String)
+    ensures
+        r@ == a@ + b@,
+{
+    unimplemented!()
+}
+
+// `&PathBuf -> &Path` (Deref): the same path; for a PathBuf built from a String its lossy rendering is that String
+// (a Rust String is valid Unicode, so to_string_lossy replaces nothing)
+pub assume_specification[ <std::path::PathBuf as core::ops::Deref>::deref ](p: &std::path::PathBuf) -> (r: &std::path::Path)
+    ensures
+        sp_path_lossy(r) == sp_pathbuf_str(*p),
+;
+
+// ---- the file system and the hashing of one input, as seen by --check (C12) -----------------------------
+// sp_fs_stream(mode, path): what hashing the file named `path` gives during THIS run of b3sum: Some(id) = the output
+// stream `id` of the finalized hasher (sp_xof_byte(id, _)), None = the file cannot be opened / read. ASSUMED: the
+// file system and the options (--keyed / --derive-key / --no-mmap: fixed in Args) do not change during the run, so
+// this is a function; that the stream IS the BLAKE3 output of the file's bytes is C01/C02/C11 on the blake3 crate.
+pub uninterp spec fn sp_fs_stream(path: Seq<char>) -> Option<int>;
